@@ -1,7 +1,7 @@
 package sqlparse
 
 //verif:dir internal/sqlparse
-//verif:bound one statement SELECT <leaf> FROM t (or SELECT a FROM <leaf>, SELECT a AS <leaf> FROM t) in the SQLite dialect, where the leaf is a quoted identifier in one of the three quoting styles ("..", `..`, [..]) whose content is any string of 1..5 (quick) / 1..6 (thorough) bytes over letters, digits and _ $ space . ' " ` [ ], or a string literal whose content is any string of 0..4 bytes over the same alphabet plus backslash
+//verif:bound one statement SELECT <leaf> FROM t (or SELECT a FROM <leaf>, SELECT a AS <leaf> FROM t) in the SQLite dialect, where the leaf is a quoted identifier in one of the three quoting styles ("..", `..`, [..]) whose content is any string of 1..4 (quick) / 1..5 (thorough) bytes over letters, digits and _ $ space . ' " ` [ ], or a string literal whose content is any string of 0..4 bytes over the same alphabet plus backslash
 //verif:assume ASCII content only (the lexer works on runes; non-ASCII letters are never keywords)
 //verif:outside every other syntactic form (expression operators, clauses, DDL): formatting of whole statements is outside this claim; executing the reformatted text against SQLite; the PostgreSQL dialect (always quotes)
 
@@ -86,9 +86,9 @@ func c16RoundTrip(src string, position int, wantKind, wantText string) {
 }
 
 func VerifC16_quotedIdentifierSurvivesFormatting() {
-	max := 5
+	max := 4
 	if sym.Thorough() {
-		max = 6
+		max = 5
 	}
 	name := sym.String("name", max)
 	sym.Assume(len(name) >= 1)
